@@ -1280,8 +1280,8 @@ impl BlockSizeSpec {
             Self::Reserved => None,
             Self::S192 => Some(192),
             Self::Pow2Mul576(x) => Some(576usize * (1usize << x as usize)),
-            Self::ExtraByte(x) => Some((x + 1) as usize),
-            Self::ExtraTwoBytes(x) => Some((x + 1) as usize),
+            Self::ExtraByte(x) => Some(x as usize + 1),
+            Self::ExtraTwoBytes(x) => Some(x as usize + 1),
             Self::Pow2Mul256(x) => Some(256usize * (1usize << x as usize)),
         }
     }
